@@ -23,7 +23,7 @@ EXTENDS Integers, Sequences, FiniteSets, TLC, SequencesExt, Json, WireBase
 
 CONSTANTS Tier,       \* "quick" | "thorough" (both exported) | "deep" | "full6" | "full7" | "utf" (model only)
           Export,     \* BOOLEAN: print the exported subset as vectors
-          Fams        \* subset of {"hf", "hb", "rt", "short6", "short7", "cor6", "cor7", "heur6"}: the families of this run
+          Fams        \* subset of {"hf", "hb", "rt", "short6", "short7", "cor6", "cor7", "heur6", "comp6", "comp7"}: the families of this run
 
 W6 == INSTANCE Wire
 W7 == INSTANCE Wire7
@@ -316,6 +316,8 @@ ValidSel(y) == /\ Len(y.cl) <= 1
                /\ (y.p.t = "chunks" => y.p.ack \in {0, 256})
                /\ (Quick /\ y.p.t = "chunks" => y.p.ack = 0 /\ ~y.p.rr)
                /\ (Quick /\ y.hascl /\ y.cl # <<>> => y.cl[1].seq \in {0, 1023})
+               /\ (Quick /\ "token" \in DOMAIN y.p => y.p.token \in {<<>>, <<1, 2, 3, 4>>, TKEN, TOKEN_NONE})
+               /\ (Quick /\ y.p.t = "ctrl" /\ y.p.c = "close" => Len(y.p.reason) <= 4)
 Valid6(u) == {W6!WriteWith(x.p, Z6(x.p), CAP).bytes : x \in {y \in Pkt6 : ValidSel(y)}}
 Valid7(u) == {W7!WriteWith(x.p, Z7(x.p), CAP).bytes : x \in {y \in Pkt7 : ValidSel(y)}}
 ACor == T3({0, 64, 255}, {0, 1, 4, 16, 64, 255}, {0, 1, 4, 16, 32, 64, 128, 255})
@@ -329,9 +331,9 @@ CorOf(b, lim, lim2) ==      \* the corrupted variants of one datagram
   \cup (IF Quick THEN {}
         ELSE UNION {{Upd1(Upd1(b, i, x), j, y) : j \in (i + 1)..Min2(Len(b), lim2), x \in ACor2, y \in ACor2} :
                     i \in 1..Min2(Len(b), lim2)})
-InitCor6 == \E b \in Valid6(0) : \E b2 \in CorOf(b, T3(9, 12, 16), T3(0, 5, 10)), h \in Hints :
+InitCor6 == \E b \in Valid6(0) : \E b2 \in CorOf(b, T3(8, 12, 16), T3(0, 5, 10)), h \in Hints :
               Mk([k |-> "rd", v |-> 6, hint |-> h, bytes |-> b2])
-InitCor7 == \E b \in Valid7(0) : \E b2 \in CorOf(b, T3(13, 16, 20), T3(0, 9, 14)) :
+InitCor7 == \E b \in Valid7(0) : \E b2 \in CorOf(b, T3(12, 16, 20), T3(0, 9, 14)) :
               Mk([k |-> "rd", v |-> 7, hint |-> "none", bytes |-> b2])
 
 \* both sides of every branch of the 0.6 token heuristic (HasTokenHeur), under every hint:
@@ -358,6 +360,36 @@ InitHeur6 ==
     \/ \E n \in 0..2, a \in Areas, s \in StrUpTo({0, 97}, T3(4, 5, 5)) :
          Mk([k |-> "rd", v |-> 6, hint |-> h, bytes |-> <<0, 0, n>> \o a \o s])
 
+\* compressed packets of every kind (the writers only compress chunk packets; a reader must survive all):
+\* compression flag set, body = codec stream of a short plain body, end marker, then filler up to each
+\* raw-length boundary -- so that checks on the raw datagram (0.7 token request >= 519, <= 1400) and checks
+\* on the decompressed body (control byte, 4-byte token / response token, close reason, chunk headers) are
+\* exercised independently.  Plain bodies: every prefix of  c 1 2 3 4 5  and  c 0 0 0 0 0  for every control
+\* code c in 0..6, close / connect specials, chunk areas with tails.
+CtrlPlains == {<<>>} \cup {Take(<<c, 1, 2, 3, 4, 5>>, n) : c \in 0..6, n \in 1..6}
+              \cup (IF Quick THEN {} ELSE {Take(<<c, 0, 0, 0, 0, 0>>, n) : c \in 0..6, n \in 2..6})
+              \cup {Take(<<4, 97, 0, 1, 2, 3, 4>>, n) : n \in 3..7}
+              \cup {Take(<<1, 84, 75, 69, 78, 1, 2, 3, 4>>, n) : n \in 5..9}
+              \cup {<<5, 255, 255, 255, 255>>, <<1, 255, 255, 255, 255>>}
+AreaPlains == {a \o Take(<<9, 8, 7, 6, 5>>, n) : a \in {<<>>, <<0, 1, 7>>, <<64, 1, 0, 7>>}, n \in 0..5}
+Filler(n) == [j \in 1..n |-> (j * 37 + 11) % 256]
+PadTo(b, L) == IF Len(b) >= L THEN b ELSE b \o Filler(L - Len(b))
+RawLens6 == T3({0, 1400, 1401}, {0, 9, 1399, 1400, 1401}, {0, 9, 1399, 1400, 1401})
+RawLens7 == T3({0, 518, 519, 1400, 1401}, {0, 518, 519, 520, 1399, 1400, 1401}, {0, 518, 519, 520, 1399, 1400, 1401})
+Stream(plain) == ToyZ(plain).data \o ToyEOF
+InitComp6 ==
+  \E h \in Hints, L \in RawLens6 :
+    \/ \E pl \in CtrlPlains, f \in T3({144}, {144, 208}, {144, 208}) :
+         Mk([k |-> "rd", v |-> 6, hint |-> h, bytes |-> PadTo(<<f, 0, 0>> \o Stream(pl), L)])
+    \/ \E pl \in AreaPlains, n \in {0, 1} :
+         Mk([k |-> "rd", v |-> 6, hint |-> h, bytes |-> PadTo(<<128, 0, n>> \o Stream(pl), L)])
+InitComp7 ==
+  \E t \in {TOKEN_NONE, <<1, 2, 3, 4>>}, L \in RawLens7 :
+    \/ \E pl \in CtrlPlains, f \in T3({20}, {20, 28}, {20, 28}) :
+         Mk([k |-> "rd", v |-> 7, hint |-> "none", bytes |-> PadTo(<<f, 0, 0>> \o t \o Stream(pl), L)])
+    \/ \E pl \in AreaPlains, n \in {0, 1} :
+         Mk([k |-> "rd", v |-> 7, hint |-> "none", bytes |-> PadTo(<<16, 0, n>> \o t \o Stream(pl), L)])
+
 ---------------------------------------------------------------------------
 \* the UTF-8 predicate: the code's comment counts 2650112 valid three-byte strings
 Utf8Count(u) ==
@@ -378,6 +410,8 @@ Init ==
                 \/ "cor6" \in Fams /\ InitCor6
                 \/ "cor7" \in Fams /\ InitCor7
                 \/ "heur6" \in Fams /\ InitHeur6
+                \/ "comp6" \in Fams /\ InitComp6
+                \/ "comp7" \in Fams /\ InitComp7
 Next == UNCHANGED vars
 
 \* exported subset: everything except the widest byte sweeps, which are thinned
